@@ -151,6 +151,9 @@ func typeCheckDir(dir string, withTests bool, local map[string]*types.Package) *
 			cp.Errors = append(cp.Errors, err.Error())
 			continue
 		}
+		if strings.HasSuffix(n, "_test.go") && strings.HasSuffix(f.Name.Name, "_test") {
+			continue // external test package: another package in the same directory
+		}
 		cp.Files[n] = f
 		files = append(files, f)
 	}
